@@ -2,6 +2,7 @@ package gosx
 
 import (
 	"bufio"
+	"os"
 	"fmt"
 	"io"
 	"os/exec"
@@ -50,6 +51,7 @@ type Solver struct {
 	declared  map[string]bool
 	stats     *SolverStats
 	TimeoutMS int
+	Tactic    string
 	Log       io.Writer
 	dead      bool
 }
@@ -77,6 +79,11 @@ func NewSolver(kind string, timeoutMS int, stats *SolverStats) (*Solver, error) 
 		return nil, err
 	}
 	s := &Solver{Kind: kind, cmd: cmd, in: in, out: bufio.NewReaderSize(out, 1<<16), stats: stats, TimeoutMS: timeoutMS}
+	if p := os.Getenv("GOSX_SMTLOG"); p != "" {
+		if f, err := os.Create(fmt.Sprintf("%s.%d", p, cmd.Process.Pid)); err == nil {
+			s.Log = f
+		}
+	}
 	s.Reset()
 	return s, nil
 }
@@ -230,7 +237,11 @@ func (s *Solver) Check(extra []*Term, vars []*Term, wantModel bool) (Verdict, Mo
 	for _, r := range refs {
 		s.send(fmt.Sprintf("(assert %s)", r))
 	}
-	s.send("(check-sat)")
+	if s.Tactic != "" {
+		s.send("(check-sat-using " + s.Tactic + ")")
+	} else {
+		s.send("(check-sat)")
+	}
 	v := Unknown
 	for {
 		line, err := s.readLine()
